@@ -52,11 +52,22 @@ def ape(traj_ref: PosePath3D, traj_est: PosePath3D,
     alignment_transformation = None
     if align or correct_scale:
         logger.debug(SEP)
-        alignment_transformation = lie_algebra.sim3(
-            *traj_est.align(traj_ref, correct_scale, only_scale, n=n_to_align))
+        r_a, t_a, s = traj_est.align(traj_ref, correct_scale, only_scale,
+                                     n=n_to_align)
+        if only_scale:
+            # Only the scale was applied to the estimate, not the rotation
+            # and translation of the Umeyama result.
+            r_a, t_a = np.eye(3), np.zeros(3)
+        alignment_transformation = lie_algebra.sim3(r_a, t_a, s)
     if align_origin:
         logger.debug(SEP)
-        alignment_transformation = traj_est.align_origin(traj_ref)
+        origin_transformation = traj_est.align_origin(traj_ref)
+        if alignment_transformation is None:
+            alignment_transformation = origin_transformation
+        else:
+            # Applied after the (scale) alignment from above.
+            alignment_transformation = origin_transformation.dot(
+                alignment_transformation)
 
     # Projection is done after potential 3D alignment & transformation steps.
     if project_to_plane:
